@@ -72,7 +72,7 @@ struct Delivery {
     begin: u64,
     end: Option<u64>,
     tags: Vec<usize>,
-    prev_calls: Vec<(PrevKind, i32, usize, usize, usize)>,
+    prev_calls: Vec<(PrevKind, i32, usize, usize, usize, u8)>,
     info_ptr: usize,
     ctx_ptr: usize,
     lib_handler: bool,
@@ -104,6 +104,11 @@ struct World {
     successful_mutations: Vec<(i32, u64, u64)>,
     drain: DrainState,
     nactions_hint: u64,
+    /// per signal: which foreign handler (1 or 2) is the latest installed, and when
+    foreign_now: Vec<(u8, u64)>,
+    stall_tag: Option<usize>,
+    stalled_once: bool,
+    stalled_thread: Option<usize>,
 }
 
 #[derive(PartialEq, Clone, Copy, Debug)]
@@ -166,6 +171,12 @@ fn action_body(tag: usize) {
         sim::log(UE_ACTION_BEGIN, tag as u64, seq);
         let a = &mut x.actions[tag];
         if let Some(r) = a.removed_ret {
+            sim::report(
+                "C02",
+                "action-ran-after-removal-returned",
+                &format!("action #{} (signal {}) began running on T{} at event {} although its removal had returned at event {}", tag, sig_name(a.sig), me, seq, r),
+                false,
+            );
             sim::violation(
                 "C01",
                 "action-ran-after-removal",
@@ -189,6 +200,13 @@ fn action_body(tag: usize) {
         }
     }
     sim::sp_user();
+    if w().stall_tag == Some(tag) && !w().stalled_once {
+        // long-stall fault: this delivery is descheduled for a very long time inside the action
+        w().stalled_once = true;
+        w().stalled_thread = Some(sim::tid());
+        sim::freeze(sim::tid());
+        sim::sp_user();
+    }
     {
         let _g = ShimGuard::new();
         let x = w();
@@ -199,12 +217,20 @@ fn action_body(tag: usize) {
 }
 
 extern "C" fn foreign_plain(sig: i32) {
-    prev_called(PrevKind::Plain, sig, 0, 0);
+    prev_called(PrevKind::Plain, sig, 0, 0, 1);
 }
 extern "C" fn foreign_info(sig: i32, info: *mut libc::siginfo_t, ctx: *mut libc::c_void) {
-    prev_called(PrevKind::Info, sig, info as usize, ctx as usize);
+    prev_called(PrevKind::Info, sig, info as usize, ctx as usize, 1);
 }
-fn prev_called(kind: PrevKind, sig: i32, info: usize, ctx: usize) {
+// a second foreign handler, installed by "somebody else" while the library's first registration of
+// that signal may be in progress
+extern "C" fn foreign_plain2(sig: i32) {
+    prev_called(PrevKind::Plain, sig, 0, 0, 2);
+}
+extern "C" fn foreign_info2(sig: i32, info: *mut libc::siginfo_t, ctx: *mut libc::c_void) {
+    prev_called(PrevKind::Info, sig, info as usize, ctx as usize, 2);
+}
+fn prev_called(kind: PrevKind, sig: i32, info: usize, ctx: usize, which: u8) {
     let _g = ShimGuard::new();
     let me = sim::tid();
     let x = w();
@@ -213,7 +239,7 @@ fn prev_called(kind: PrevKind, sig: i32, info: usize, ctx: usize) {
         Some(d) => {
             let d = &mut x.deliveries[*d];
             let nt = d.tags.len();
-            d.prev_calls.push((kind, sig, info, ctx, nt));
+            d.prev_calls.push((kind, sig, info, ctx, nt, which));
         }
         None => sim::harness_error("foreign handler ran outside any delivery"),
     }
@@ -270,14 +296,15 @@ fn do_delivery(sig: i32, nested: bool) {
         let d = &mut x.deliveries[did];
         d.end = Some(seq);
         sim::log(UE_DELIVERY_END, did as u64, d.tags.len() as u64);
-        let foreign_addr = match pk {
-            PrevKind::Plain => foreign_plain as usize,
-            PrevKind::Info => foreign_info as usize,
-            _ => 0,
+        let foreign_addrs = match pk {
+            PrevKind::Plain => [foreign_plain as usize, foreign_plain2 as usize],
+            PrevKind::Info => [foreign_info as usize, foreign_info2 as usize],
+            _ => [0, 0],
         };
         if let sim::Disposition::Handler(h) = disp {
-            d.lib_handler = h != foreign_addr;
+            d.lib_handler = !foreign_addrs.contains(&h);
         }
+        let (expected_which, installed_at) = x.foreign_now[sidx];
         // C04: previous handler chained exactly once, first, same arguments
         let desc = format!(
             "delivery #{} of {} on T{}{} (dispatched to {}), previous disposition {:?}",
@@ -293,7 +320,18 @@ fn do_delivery(sig: i32, nested: bool) {
                 if d.prev_calls.len() != 1 {
                     sim::report("C04", "prev-handler-call-count", &format!("{}: previous handler was called {} times (events {}..{}, first registration returned before begin: {})", desc, d.prev_calls.len(), d.begin, seq, d.first_reg_returned_at_begin), false);
                 } else {
-                    let (k, s, i, c, nt) = d.prev_calls[0];
+                    let (k, s, i, c, nt, which) = d.prev_calls[0];
+                    // which of the two foreign handlers: the one in place when the library took
+                    // the signal over.  Deliveries that began while that first registration was
+                    // still running may legitimately see the older one (the documented race).
+                    if d.lib_handler && d.first_reg_returned_at_begin && which != expected_which {
+                        sim::report(
+                            "C04",
+                            "stale-previous-handler",
+                            &format!("{}: chained foreign handler #{} although handler #{} was the one in place (installed at event {}) when the library took the signal over; the first registration had returned before this delivery began", desc, which, expected_which, installed_at),
+                            false,
+                        );
+                    }
                     if k != pk || s != sig {
                         sim::report("C04", "prev-handler-wrong-convention", &format!("{}: called as {:?} with signal {}", desc, k, s), false);
                     }
@@ -365,6 +403,10 @@ fn gen_scenario(spec: &RunSpec) -> (Vec<Vec<MOp>>, Vec<Vec<i32>>, Config) {
         }
         // op mix: register heavy at first, then removals
         let r = sim::work(100);
+        // iterator instances created / extended / dropped while deliveries run: more of them where
+        // the property is about what a delivery may do or about dropping the owner
+        let iter_heavy = (prop == "C03" || prop == "C01") && sim::work(3) == 0;
+        let r = if iter_heavy && gen > 0 && r < 30 { 93 } else { r };
         let op = if gen == 0 || r < 42 {
             let sig = sigs[sim::work(nsig as u32) as usize];
             let kind = if builtin && sim::work(2) == 0 {
@@ -443,6 +485,7 @@ fn gen_scenario(spec: &RunSpec) -> (Vec<Vec<MOp>>, Vec<Vec<i32>>, Config) {
         pct_horizon: 150,
     };
     let x = w();
+    x.foreign_now = vec![(1, 0); sigs.len()];
     x.sigs = sigs;
     x.prev = prev;
     x.gen_to_action = vec![None; gen];
@@ -530,7 +573,7 @@ fn register_kind(sig: i32, kind: ActKind, tag: usize) -> Result<SigId, std::io::
             let (r, wr) = UnixStream::pair()?;
             if full {
                 set_nonblock(wr.as_raw_fd());
-                fill_fd(wr.as_raw_fd());
+                fill_fast(wr.as_raw_fd());
             }
             w().keep_fds.push(std::os::unix::io::IntoRawFd::into_raw_fd(r));
             signal_hook::low_level::pipe::register(sig, wr)
@@ -546,10 +589,12 @@ fn register_kind(sig: i32, kind: ActKind, tag: usize) -> Result<SigId, std::io::
         }
         ActKind::PipePipe { full } => {
             let mut fds = [0i32; 2];
-            unsafe { libc::pipe(fds.as_mut_ptr()) };
+            if unsafe { libc::pipe(fds.as_mut_ptr()) } != 0 {
+                sim::harness_error(&format!("pipe(2) failed: {}", std::io::Error::last_os_error()));
+            }
             if full {
                 set_nonblock(fds[1]);
-                fill_fd(fds[1]);
+                fill_fast(fds[1]);
                 // back to blocking: register_raw must make it non-blocking itself
                 unsafe {
                     let fl = libc::fcntl(fds[1], libc::F_GETFL, 0);
@@ -588,17 +633,17 @@ fn removal_check(tag: usize, seq: u64, how: &str) {
     let a = &mut w().actions[tag];
     sim::count(E_REMOVALS, 1);
     if a.in_progress > 0 {
-        sim::violation("C01", "action-in-progress-at-removal-return", &format!("{} of action #{} returned on T{} at event {} while an invocation of the action was still in progress", how, tag, me, seq));
+        sim::report("C01", "action-in-progress-at-removal-return", &format!("{} of action #{} returned on T{} at event {} while an invocation of the action was still in progress", how, tag, me, seq), false);
     }
     if a.tagged && !w().leaky {
         if a.dropped != 1 {
-            sim::violation("C01", "captured-state-not-released-at-removal-return", &format!("{} of action #{} returned on T{} at event {} but its captured state has been dropped {} times", how, tag, me, seq, a.dropped));
+            sim::report("C01", "captured-state-not-released-at-removal-return", &format!("{} of action #{} returned on T{} at event {} but its captured state has been dropped {} times", how, tag, me, seq, a.dropped), false);
         }
         if a.dropped_by != me {
-            sim::violation("C01", "released-by-wrong-thread", &format!("captured state of action #{} was released by T{}, not by the removing thread T{}", tag, a.dropped_by, me));
+            sim::report("C01", "released-by-wrong-thread", &format!("captured state of action #{} was released by T{}, not by the removing thread T{}", tag, a.dropped_by, me), false);
         }
         if a.dropped_depth != 0 {
-            sim::violation("C01", "released-inside-handler", &format!("captured state of action #{} was released inside a signal handler", tag));
+            sim::report("C01", "released-inside-handler", &format!("captured state of action #{} was released inside a signal handler", tag), false);
         }
     }
     a.removed_ret = Some(seq);
@@ -929,6 +974,10 @@ pub fn run(spec: &RunSpec) -> ! {
         successful_mutations: Vec::new(),
         drain: DrainState::Off,
         nactions_hint: 12,
+        foreign_now: Vec::new(),
+        stall_tag: None,
+        stalled_once: false,
+        stalled_thread: None,
     });
     unsafe { WORLD = Box::into_raw(world) };
     let sh = sighook_shim::shm::get();
@@ -937,6 +986,9 @@ pub fn run(spec: &RunSpec) -> ! {
     sighook_shim::shm::put_str(&mut sh.abort_prop, spec.prop.id);
     if spec.prop.id == "C03" && spec.run < spec.prop.sweep_runs {
         sweep_run(spec);
+    }
+    if (spec.prop.id == "C01" || spec.prop.id == "C02") && spec.run % 4096 == 1027 {
+        long_stall_run(spec);
     }
     let (muts, dels, cfg) = gen_scenario(spec);
     sim::note(&describe(&muts, &dels, &cfg));
@@ -977,6 +1029,38 @@ pub fn run(spec: &RunSpec) -> ! {
                 do_delivery(*s, false);
             }
         }));
+    }
+    if prop == "C04" && sim::work(3) == 0 {
+        // fault: somebody else replaces the pre-existing handler of a signal while (maybe) the
+        // library's first registration of it is under way; only as long as the library has not
+        // taken the signal over yet (afterwards it would be the application clobbering the library)
+        let delay = sim::work(40);
+        let cand: Vec<usize> = (0..w().sigs.len()).filter(|i| matches!(w().prev[*i], PrevKind::Plain | PrevKind::Info)).collect();
+        if !cand.is_empty() {
+            let si = cand[sim::work(cand.len() as u32) as usize];
+            tids.push(sim::spawn("installer", move || {
+                for _ in 0..delay {
+                    sim::sp_user();
+                }
+                let _g = ShimGuard::new();
+                let x = w();
+                let sig = x.sigs[si];
+                let (h, _) = get_disposition(sig);
+                let first = match x.prev[si] {
+                    PrevKind::Plain => foreign_plain as usize,
+                    _ => foreign_info as usize,
+                };
+                if h == first {
+                    x.seq += 1;
+                    match x.prev[si] {
+                        PrevKind::Plain => set_disposition(sig, foreign_plain2 as usize, false),
+                        _ => set_disposition(sig, foreign_info2 as usize, true),
+                    }
+                    x.foreign_now[si] = (2, x.seq);
+                    sim::count(E_FOREIGN_INSTALL, 1);
+                }
+            }));
+        }
     }
     for t in tids {
         sim::join(t);
@@ -1056,6 +1140,7 @@ fn sweep_run(spec: &RunSpec) -> ! {
     {
         let x = w();
         x.sigs = vec![a, b];
+        x.foreign_now = vec![(1, 0); 2];
         x.prev = vec![if sc == 0 { PrevKind::Info } else { PrevKind::Default }, PrevKind::Default];
         x.gen_to_action = vec![None; 8];
         x.nactions_hint = 8;
@@ -1168,5 +1253,63 @@ fn sweep_run(spec: &RunSpec) -> ! {
     } else {
         sim::count(E_SWEEP_OUT_OF_RANGE, 1);
     }
+    sim::finish_ok()
+}
+
+
+// ---------------------------------------------------------------------------------------------
+// long-stall fault (C01/C02): a delivery is descheduled inside an action for more than a million
+// iterations of the writer's wait loop; the removal of a later action of that delivery must not
+// return before the delivery does, however long that takes
+
+fn long_stall_run(spec: &RunSpec) -> ! {
+    let a = libc::SIGUSR1;
+    {
+        let x = w();
+        x.sigs = vec![a];
+        x.prev = vec![PrevKind::Default];
+        x.foreign_now = vec![(1, 0)];
+        x.gen_to_action = vec![None; 4];
+    }
+    let spins_wanted: u64 = 1_200_000 + (sim::work(4) as u64) * 100_000;
+    sim::note(&format!("long-stall fault: a delivery of USR1 is descheduled inside its first action while another thread unregisters its second action; the writer is left spinning for {} iterations before the delivery resumes", spins_wanted));
+    let cfg = Config { prop: spec.prop.id.to_string(), policy: Policy::Uniform, step_budget: 12_000_000, ..Config::default() };
+    sim::start(cfg);
+    sim::set_handler_step_limit(0);
+    sim::set_spin_patience(u32::MAX);
+    sim::set_auto_thaw(true);
+    let mut none: Option<IterBox> = None;
+    let canary = ActKind::Canary { sigaction: false, panic_drop: false };
+    exec_mop(&MOp::Register { sig: a, kind: canary, gen: 0 }, &mut none);
+    exec_mop(&MOp::Register { sig: a, kind: canary, gen: 1 }, &mut none);
+    w().stall_tag = Some(0);
+    let d = sim::spawn("deliverer", move || {
+        do_delivery(a, false);
+    });
+    let m = sim::spawn("mutator", move || {
+        // start the removal only once the delivery is stalled inside its first action
+        while !w().stalled_once {
+            sim::sp_user();
+        }
+        let mut none: Option<IterBox> = None;
+        exec_mop(&MOp::Unregister { gen: 1 }, &mut none);
+    });
+    sim::set_step_hook(Box::new(move || {
+        let x = w();
+        if let Some(t) = x.stalled_thread {
+            if sim::thread_frozen(t) {
+                let removal_returned = x.actions.get(1).map(|a| a.removed_ret.is_some()).unwrap_or(false);
+                if sim::thread_spins(m) >= spins_wanted || removal_returned || sim::thread_state(m) == sim::TState::Finished {
+                    sim::count(E_LONG_STALL, 1);
+                    sim::thaw(t);
+                }
+            }
+        }
+    }));
+    sim::join(d);
+    sim::join(m);
+    sim::set_step_hook(Box::new(|| {}));
+    final_checks(spec);
+    sim::mark_nontrivial();
     sim::finish_ok()
 }
